@@ -19,7 +19,7 @@
 //! * `float-conv` proptest floats for from_f64/from_f32 of the five fixed types (ties, neighbours, arbitrary bit patterns).
 //! * `ot-round`   proptest floats for every `write_fonts::OtRound` impl.
 //! * `construct`  proptest u32/i32/i64/usize for the saturating / checked 24-bit constructors and 64-bit round trips.
-//! * `below-half` the ten inputs `+-pred(0.5)/ONE` of from_f32/from_f64 (kept apart: see kf_proposals/C15.json).
+//! * `below-half` regression stage: the ten inputs `+-pred(0.5)/ONE` of from_f32/from_f64 (x*ONE + 0.5 used to double-round).
 use font_types::{
     BigEndian, F26Dot6, F2Dot14, F4Dot12, F6Dot10, FWord, Fixed, GlyphId, GlyphId16, Int24, LongDateTime, MajorMinor, NameId,
     Nullable, Offset16, Offset24, Offset32, Scalar, Tag, UfWord, Uint24, Version16Dot16,
@@ -246,8 +246,7 @@ macro_rules! fixed16 {
                     continue; // bits-1 of +0.0 is not a neighbour
                 }
                 if (xf * one as f32).abs() == pred_half32() {
-                    $stats.class("excluded_known");
-                    continue;
+                    $stats.class("from_float:one_ulp_below_half_inputs");
                 }
                 let (m, e) = decomp(xf as f64);
                 let got = $T::from_f32(xf).to_bits() as i128;
@@ -447,8 +446,7 @@ macro_rules! fixed32 {
         for d in [-1i64, 0, 1] {
             let xf = f64::from_bits((c.to_bits() as i64 + d) as u64);
             if (xf * one).abs() == pred_half64() {
-                $excl += 1;
-                continue;
+                $excl += 1; // checked like every other input (regression: double rounding of x*ONE + 0.5)
             }
             let (m, e) = decomp(xf);
             let got = $T::from_f64(xf).to_bits() as i128;
@@ -533,7 +531,7 @@ fn test32(c: &Blk32, stats: &Stats) -> CaseResult {
     stats.class_n("fixed32:to_f2dot14_representable", n214);
     stats.class_n("fixed32:exact_half_inputs", ties);
     stats.class_n("fixed32:to_f26dot6_add_would_overflow_skipped", wrap_skipped);
-    stats.class_n("excluded_known", excl);
+    stats.class_n("from_float:one_ulp_below_half_inputs", excl);
     stats.nontrivial(hash_json(&("fixed32", c)));
     Ok(())
 }
@@ -913,8 +911,7 @@ fn test_float(c: &FloatCase, stats: &Stats) -> CaseResult {
         (name, got, m, e, i16::MIN as i128, i16::MAX as i128, format!("{x:e}f32"), known)
     };
     if known {
-        stats.class("excluded_known");
-        return Ok(());
+        stats.class("from_float:one_ulp_below_half_inputs");
     }
     match from_float_chk(name, fb, min, max, m, e, got, || shown.clone())? {
         None => stats.class("float:nearest_not_representable_skipped"),
